@@ -98,11 +98,12 @@ type progOpts struct {
 	directives bool
 	// hooks of the ill-typed/erroring stream (C06); nil = the valid stream, and
 	// no PRNG draw is added, so the other properties' streams are unchanged
-	exprHook func(g *progGen, env genv, k kind, d int) (string, bool) // may replace any expression
-	dirHook  func(g *progGen) (string, bool)                          // may replace a print's directive suffix
-	spread     bool // C19: put (most) commands on lines of their own, so that line numbers discriminate
-	allHeader  bool // C19: every template declares its params in the header (no soydoc comment in the file)
-	scope      bool // C02: small name pool (shadowing), scope probes, aliases, attribute-style params, more data="all"/data="$e"
+	exprHook  func(g *progGen, env genv, k kind, d int) (string, bool) // may replace any expression
+	dirHook   func(g *progGen) (string, bool)                          // may replace a print's directive suffix
+	spread    bool                                                     // C19: put (most) commands on lines of their own, so that line numbers discriminate
+	allHeader bool                                                     // C19: every template declares its params in the header (no soydoc comment in the file)
+	msgPO     bool                                                     // C11: messages come from progMsgHook (PO-representable shapes), and are frequent
+	scope     bool                                                     // C02: small name pool (shadowing), scope probes, aliases, attribute-style params, more data="all"/data="$e"
 	// options added for C09 (all off by default; none consumes randomness when off)
 	ij          bool                  // some prints read the injected data: {$ij.s}, {$ij.n}
 	customFunc  string                // name of a user-installed int -> int function to call now and then
@@ -114,6 +115,10 @@ type progOpts struct {
 	shapes       bool     // print-directive chains of every length 0..8 (marker / cancelling / non-cancelling mixes), list literals of 0..8 items
 	chainExtra   []string // user-installed non-cancelling directives usable in chains, e.g. "|bang"
 }
+
+// progMsgHook, when set (by a property's tagged file) and progOpts.msgPO is on,
+// generates the {msg} commands; the default generator below is used otherwise.
+var progMsgHook func(g *progGen, env genv, d int) string
 
 type progGen struct {
 	r     *hx.Rand
@@ -509,6 +514,10 @@ func (g *progGen) block(env genv, d int, n int) string {
 	var sb strings.Builder
 	var pendingLets []gvar
 	for i := 0; i < n; i++ {
+		if g.o.msgPO && g.r.Chance(30) {
+			sb.WriteString(g.msg(env, d))
+			continue
+		}
 		if g.o.scope && d > 0 && g.r.Chance(18) {
 			sb.WriteString(g.scopeProbe(env, d))
 			continue
@@ -672,6 +681,9 @@ func (g *progGen) block(env genv, d int, n int) string {
 
 func (g *progGen) msg(env genv, d int) string {
 	g.feat("msg")
+	if g.o.msgPO && progMsgHook != nil {
+		return progMsgHook(g, env, d)
+	}
 	var sb strings.Builder
 	sb.WriteString("{msg desc=\"" + g.r.Pick([]string{"d", "a message", ""}) + "\"")
 	if g.r.Chance(20) {
